@@ -946,7 +946,7 @@ func evalHdrTop(h []byte, kind string) {
 
 // ---------- file level (fstree/head.go) ----------
 
-func fsPart(fam []baseObj, menu []byte) {
+func fsPart(fam []baseObj, menu []byte) { // menu: the small byte menu in both tiers
 	dir, err := os.MkdirTemp("/dev/shm", "verif-c41-")
 	if err != nil {
 		run.Fatal("tmp dir: %v", err)
@@ -982,45 +982,46 @@ func fsPart(fam []baseObj, menu []byte) {
 
 	type job struct {
 		v    variant
-		data []byte
+		pos  int // -1: unmodified
+		val  byte
 		kind string
 	}
 	var jobs []job
+	quickMut := func(name string) bool {
+		if !strings.Contains(name, fmt.Sprintf("+payload%d", sizes[1])) {
+			return false
+		}
+		for _, n := range []string{"small-signed", "child-full-parent", "max-varints", "unsigned-nopayload"} {
+			if strings.HasPrefix(name, n+"+") {
+				return true
+			}
+		}
+		return false
+	}
 	for _, v := range vars {
-		jobs = append(jobs, job{v, v.enc, "fs-valid:" + v.name})
+		jobs = append(jobs, job{v, -1, 0, "fs-valid:" + v.name})
 		if len(v.enc) <= iobject.NonPayloadFieldsBufferLength {
 			continue
 		}
-		// every single-byte substitution in the non-payload region (+ payload field prefix and 2 payload bytes)
-		hdrLen := len(v.o.CutPayload().Marshal()) + 1 + protowire.SizeVarint(uint64(len(v.o.Payload()))) + 2
 		step := 1
 		if run.Quick() {
-			step = 3 // quick: every third position, all positions in thorough
+			// quick: mutants of the boundary-size variant of four objects, every third position
+			if !quickMut(v.name) {
+				continue
+			}
+			step = 3
 		}
+		// every single-byte substitution in the non-payload region (+ payload field prefix and 2 payload bytes)
+		hdrLen := len(v.o.CutPayload().Marshal()) + 1 + protowire.SizeVarint(uint64(len(v.o.Payload()))) + 2
 		for pos := 0; pos < hdrLen; pos += step {
 			for _, val := range menu {
-				if v.enc[pos] == val {
-					continue
+				if v.enc[pos] != val {
+					jobs = append(jobs, job{v, pos, val, "fs-subst:" + v.name})
 				}
-				m := bytes.Clone(v.enc)
-				m[pos] = val
-				jobs = append(jobs, job{v, m, "fs-subst:" + v.name})
 			}
 		}
 	}
-	if run.Quick() {
-		// keep only the mutants of the boundary-size variants of four objects
-		var keep []job
-		for _, j := range jobs {
-			if strings.HasPrefix(j.kind, "fs-valid:") ||
-				(strings.Contains(j.kind, fmt.Sprintf("+payload%d", sizes[1])) &&
-					(strings.Contains(j.kind, "small-signed") || strings.Contains(j.kind, "child-full-parent") ||
-						strings.Contains(j.kind, "max-varints") || strings.Contains(j.kind, "unsigned-nopayload"))) {
-				keep = append(keep, j)
-			}
-		}
-		jobs = keep
-	}
+	run.Set("file_cases", len(jobs))
 
 	// one FSTree per worker slot to keep files apart
 	nw := 16
@@ -1048,7 +1049,12 @@ func fsPart(fam []baseObj, menu []byte) {
 		s := free[len(free)-1]
 		free = free[:len(free)-1]
 		slot.Unlock()
-		fsCase(trees[s], jobs[i].v.o.Address(), jobs[i].data, jobs[i].kind)
+		data := jobs[i].v.enc
+		if jobs[i].pos >= 0 {
+			data = bytes.Clone(data)
+			data[jobs[i].pos] = jobs[i].val
+		}
+		fsCase(trees[s], jobs[i].v.o.Address(), data, jobs[i].kind)
 		slot.Lock()
 		free = append(free, s)
 		slot.Unlock()
@@ -1261,6 +1267,7 @@ func main() {
 		}
 	}
 	menu := append([]byte{0x00, 0x01, 0x7f, 0x80, 0xff}, wireTags()...)
+	smallMenu := bytes.Clone(menu)
 	if r.Thorough() {
 		menu = menu[:0]
 		for v := 0; v < 256; v++ {
@@ -1358,7 +1365,7 @@ func main() {
 	}
 	lap("short_s")
 	// 3. file level
-	fsPart(fam, menu)
+	fsPart(fam, smallMenu)
 	lap("files_s")
 	pprof.StopCPUProfile()
 	r.Set("phase_seconds", phases)
